@@ -94,11 +94,12 @@ pub struct CMatch {
     pub mbu: u32,
     pub chaos_pct: u32,
     pub coh_pct: u32,
+    pub lang: String,
 }
 impl CMatch {
     pub fn show(&self) -> String {
         format!(
-            "{}|{}|{}|{}|{}|{}|{}|{}|{}",
+            "{}|{}|{}|{}|{}|{}|{}|{}|{}|{}",
             self.enc,
             if self.subs.is_empty() { "-".to_string() } else { self.subs.join(",") },
             self.chaos,
@@ -114,12 +115,13 @@ impl CMatch {
             },
             self.mbu,
             self.chaos_pct,
-            self.coh_pct
+            self.coh_pct,
+            self.lang
         )
     }
     pub fn parse(s: &str) -> Option<CMatch> {
         let p: Vec<&str> = s.split('|').collect();
-        if p.len() != 9 {
+        if p.len() != 10 {
             return None;
         }
         Some(CMatch {
@@ -146,6 +148,7 @@ impl CMatch {
             mbu: p[6].parse().ok()?,
             chaos_pct: p[7].parse().ok()?,
             coh_pct: p[8].parse().ok()?,
+            lang: p[9].to_string(),
         })
     }
     pub fn cands(&self) -> Vec<String> {
@@ -166,6 +169,7 @@ pub fn canon_match(m: &CharsetMatch) -> CMatch {
         mbu: fbits(m.multi_byte_usage()),
         chaos_pct: fbits(m.chaos_percents()),
         coh_pct: fbits(m.coherence_percents()),
+        lang: format!("{}", m.most_probably_language()),
     }
 }
 
